@@ -4,7 +4,7 @@
      pkg/internal/packetlimiter/counter.go newCounter, updateAndAdd, expire, add, resize, sum, rate
      pkg/internal/packetlimiter/limiter.go New, Account *)
 From Coq Require Import List ZArith NArith Bool.
-From Flocq Require Import IEEE754.Binary IEEE754.Bits IEEE754.BinarySingleNaN.
+From Coq Require Import Floats.SpecFloat.
 From Verif Require Import Base.Hex Base.Ip.
 Import ListNotations.
 Open Scope Z_scope.
@@ -70,10 +70,10 @@ Fixpoint bucket_run (burst rnum rden : Z) (b : bucket) (ts : list Z) : list bool
   | t :: r => let '(b', ok) := bucket_allow burst rnum rden b t in ok :: bucket_run burst rnum rden b' r
   end.
 
-(* admitted events among those whose time lies in [t0, t1] *)
-Fixpoint admitted_in (t0 t1 : Z) (ts : list Z) (oks : list bool) : Z :=
+(* granted events among those whose time lies in [t0, t1] *)
+Fixpoint granted_in (t0 t1 : Z) (ts : list Z) (oks : list bool) : Z :=
   match ts, oks with
-  | t :: r, ok :: r' => (if ok && (t0 <=? t) && (t <=? t1) then 1 else 0) + admitted_in t0 t1 r r'
+  | t :: r, ok :: r' => (if ok && (t0 <=? t) && (t <=? t1) then 1 else 0) + granted_in t0 t1 r r'
   | _, _ => 0
   end.
 
@@ -157,13 +157,21 @@ Definition update_and_add (c : counter) (count now : Z) : counter := add (expire
 Definition sum (c : counter) : Z := total c.
 
 (* ---------- rate() > float64(limit), bit-exact binary64 ---------- *)
-Definition f64_of_int (z : Z) : binary64 := Binary.binary_normalize 53 1024 eq_refl eq_refl mode_NE z 0 false.
-Definition f64_1e_9 : binary64 := b64_of_bits 0x3E112E0BE826D695.   (* the double nearest to 1e-9 *)
+(* IEEE-754 binary64 through the standard library's executable specification Coq.Floats.SpecFloat
+   (round to nearest even; the same functions Flocq's Bmult/Bdiv are proved equal to, but without the
+   real-number proofs attached, so nothing here depends on an axiom). *)
+Definition f64_of_int (z : Z) : spec_float :=            (* float64(int64) *)
+  match z with
+  | Z0 => S754_zero false
+  | _ => SpecFloat.binary_normalize 53 1024 z 0 false
+  end.
+(* the double nearest to 1e-9: bits 0x3E112E0BE826D695 = 0x112E0BE826D695 * 2^-82 *)
+Definition f64_1e_9 : spec_float := S754_finite false 0x112E0BE826D695 (-82).
 
 (* float64(c.total) / (float64(c.interval) * 1e-9) > float64(limit) *)
 Definition exceeds_float (tot iv limit : Z) : bool :=
-  match b64_compare (b64_div mode_NE (f64_of_int tot) (b64_mult mode_NE (f64_of_int iv) f64_1e_9))
-                    (f64_of_int limit) with
+  match SFcompare (SFdiv 53 1024 (f64_of_int tot) (SFmul 53 1024 (f64_of_int iv) f64_1e_9))
+                  (f64_of_int limit) with
   | Some Gt => true
   | _ => false
   end.
@@ -226,7 +234,7 @@ Fixpoint run_limiter (exc : Z -> Z -> Z -> bool) (l : option limiter) (evs : lis
 Definition window_sum (iv now : Z) (hist : list (Z * Z)) : Z :=
   fold_right (fun e acc => if (now - iv <=? fst e) then snd e + acc else acc) 0 hist.
 
-(* decision for the event (now, nb) given the admitted events before it (newest first) *)
+(* decision for the event (now, nb) given the granted events before it (newest first) *)
 Definition spec_decision (exc : Z -> Z -> Z -> bool) (pps bps iv : Z) (hist : list (Z * Z)) (now nb : Z) : bool :=
   let pk := if 0 <? pps then exc (window_sum iv now (map (fun e => (fst e, 1)) ((now, nb) :: hist))) iv pps else false in
   let bt := if 0 <? bps then exc (window_sum iv now ((now, nb) :: hist)) iv bps else false in
